@@ -51,7 +51,22 @@ the no-context contract (obliged: m lists no reaction; assumed: m._model None, m
 contract's views) - what it registers is not looked at; `DictList.remove` / `DictList.add` by their C15 contracts; the list returned
 by Model.get_associated_groups(gene) ASSUMED free of duplicates at the call site (as for the reaction's groups in the base contract).
 
-MUTANTS (tools/mutate_and_run.sh, each must not verify): see the end of this docstring (filled in after the trials).
+ENGINE NOTE (no change of pyvc): the engine havocs a loop's `modifies` at the loop head and does NOT check the body's writes against
+it - a write to a heap field that an inner loop does not list was dropped silently (a first version of this contract VERIFIED the
+mutant M1 below).  Here every inner loop lists all heap fields the function may write (`_model`, `_reaction`, `_members`) and its
+invariant states the ones it must not write unchanged (`_same`); the two base contracts do not do this for `_model` in the gene loop.
+
+MUTANTS (tools/mutate_and_run.sh at its reduced solver budget; control: the unmutated source at the same budget leaves only
+loop#0/inv-preserve.39~2 undecided, which is discharged at the normal budget - it is not counted below):
+  M1 `gene._model = None` after self.genes.remove(gene), no undo (the seeded change)   -> loop#2/inv-preserve.30 (paths ~4, ~7: `_model`
+     unchanged in the gene loop) not discharged
+  M2 the registration context(partial(self.genes.add, gene)) dropped                   -> loop#2/inv-preserve.26 (entries made by the loop:
+     a GGADD entry needs the gene's GENADD entry before it) and .28 (one GENADD per gene that left) not discharged
+  M3 the registration context(partial(group.add_members, [gene])) dropped              -> loop#3/inv-preserve.6 (trace length = entry length
+     + groups visited) and .10 (entry nA + w is the GGADD of the w-th group) not discharged
+  M4 context(partial(self.genes.add, gene)) registered twice                           -> loop#2/inv-preserve.26 (nothing twice: whGen)
+  M5 context(partial(group.add_members, [reaction])) in the gene's group loop          -> see the final report of R7b
+(all `unknown`, none `sat`: the clauses are quantified).
 """
 import z3
 import cobra  # noqa
@@ -220,6 +235,14 @@ def _post(E):
     return z3.And(RR._post(E), *_tr_state(E, E.s1, RR._arg(E)[0]))
 
 
+def _same(E, Lc, *fields):
+    """explicit frame of an inner loop: the engine havocs the loop's `modifies` at the loop head and does NOT check that the body
+    writes nothing else (a write to a heap field outside `modifies` would be dropped silently); so the heap fields the function
+    may write are ALL put into the inner loops' `modifies` and the ones a loop must not write are stated unchanged here"""
+    x = qv("sx", Ref)
+    return [FA([x], Hh(E, Lc.st, f)[x] == Hh(E, Lc.entry, f)[x], patterns=[Hh(E, Lc.st, f)[x]]) for f in fields]
+
+
 def _inv_outer(E, Lc):
     return z3.And(RR._inv_outer(E, Lc), *_tr_state(E, Lc.st, Lc.i))
 
@@ -305,7 +328,7 @@ def _inv_genes(E, Lc):
         FA([y, g_], z3.Implies(z3.And(newg(y), 0 <= g_, g_ < gn, M_in[gg][y]),
                                z3.And(nA <= whGG[y][gg], whGG[y][gg] < n, kd[whGG[y][gg]] == K_GGADD, ar[whGG[y][gg]] == r,
                                       a3[whGG[y][gg]] == y, a2[whGG[y][gg]] == gg)), patterns=[M_in[gg][y]])]
-    return z3.And(base(E, Lc), *cs)
+    return z3.And(base(E, Lc), *(cs + _same(E, Lc, "_model")))
 
 
 def _inv_gene_groups(E, Lc):
@@ -329,7 +352,11 @@ def _inv_gene_groups(E, Lc):
                                   whGG[g][a2[j]] == j)), patterns=[kd[j], ar[j], a2[j]]),
         FA([w], z3.Implies(z3.And(0 <= w, w < i), z3.And(whGG[g][gw] == nA + w, kd[nA + w] == K_GGADD, ar[nA + w] == r, a3[nA + w] == g,
                                                          a2[nA + w] == gw)), patterns=[gw])]
-    return z3.And(base(E, Lc), *cs)
+    return z3.And(base(E, Lc), *(cs + _same(E, Lc, "_model", "_reaction")))
+
+
+def _inv_rxn_groups(E, Lc):
+    return z3.And(RRC._inv_groups(E, Lc), *_same(E, Lc, "_model", "_reaction"))
 
 
 OWN_GHOST = [_hav(k) for k in OWN]
@@ -344,16 +371,17 @@ def _outer_mod(E, Lc):
 
 
 _H = RRC._havoc
+_HEAPS = [("heap", "_members"), ("heap", "_model"), ("heap", "_reaction")]
 _c_orph = RR.pcase_(Case("remove_orphans_true", ensures=_post), remove_orphans=TConc(True))
 REG.add(Contract(MM, "Model.remove_reactions", "C03",
                  [("self", RR._model_t()), ("reactions", TList("ref:Reaction")), ("remove_orphans", TConc(True))],
                  [_c_orph], pre=_pre, modifies=_mod, key=KEY, props=["C03", "C02"],
                  loops={0: LoopSpec(_inv_outer, _outer_mod),
                         1: LoopSpec(_inv_mets, lambda E, Lc: RR._met_mod(E, Lc) + [_H("rru"), _H("rru_whX"), _hav("rro_whM")]),
-                        2: LoopSpec(_inv_genes, lambda E, Lc: RR._gene_mod(E, Lc) + [_H("rru"), _H("rru_whX"), _hav("rro_whGen"),
-                                                                                    _hav("rro_whGG"), _hav("rro_arg3")]),
-                        3: LoopSpec(_inv_gene_groups, lambda E, Lc: [("heap", "_members"), _H("rru"), _hav("rro_whGG"), _hav("rro_arg3")]),
-                        4: LoopSpec(RRC._inv_groups, lambda E, Lc: [("heap", "_members"), _H("rru"), _H("rru_whG")])},
+                        2: LoopSpec(_inv_genes, lambda E, Lc: RR._gene_mod(E, Lc) + [("heap", "_model"), _H("rru"), _H("rru_whX"),
+                                                                                    _hav("rro_whGen"), _hav("rro_whGG"), _hav("rro_arg3")]),
+                        3: LoopSpec(_inv_gene_groups, lambda E, Lc: _HEAPS + [_H("rru"), _hav("rro_whGG"), _hav("rro_arg3")]),
+                        4: LoopSpec(_inv_rxn_groups, lambda E, Lc: _HEAPS + [_H("rru"), _H("rru_whG")])},
                  note="a context is open (any depth); remove_orphans the literal True; otherwise the preconditions of the in-context "
                       "contract and of the no-context remove_orphans=True case, plus: no listed reaction is a gene of a listed reaction. "
                       "Model.remove_metabolites(<one metabolite that lists no reaction>) is an abstract call with an ASSUMED effect, "
